@@ -147,6 +147,25 @@ AstPath(frames) == SelectSeq([j \in 1..Len(frames) |-> frames[j].r], LAMBDA r : 
 HintById(id) == CHOOSE h \in {Hints[r] : r \in DOMAIN Hints} : h.id = id
 
 (***************************************************************************)
+(* Token-kind level.  A line has one of 13 intrinsic kinds (or is the end  *)
+(* of file).  It is READ as token t where: t is its own kind; or t is      *)
+(* #Other and the line is not the end of file (anything is free text where *)
+(* free text is expected -- the ordered table tries #Other last, so this   *)
+(* applies only where the own kind is not expected); or t is #Comment and  *)
+(* the line is a language header (which is a comment wherever #Language is *)
+(* not expected, in particular during look-ahead).                         *)
+(***************************************************************************)
+Kinds == {"#Empty", "#Comment", "#TagLine", "#FeatureLine", "#RuleLine", "#BackgroundLine", "#ScenarioLine", "#ExamplesLine", "#StepLine",
+          "#DocStringSeparator", "#TableRow", "#Language", "#Other"}
+Reads(k, t) == (k = t) \/ (t = "#Other" /\ k # "#EOF") \/ (t = "#Comment" /\ k = "#Language")
+
+\* the transition of position f that fires on a line of kind k when the look-ahead oracle is o:
+\* o = "S" / "E" / "N": the next line that is not a tag, comment or blank line is a Scenario line / an Examples line / neither
+OracleOk(la, o) == la = NoHint \/ (la = 0 /\ o = "S") \/ (la = 1 /\ o = "E")
+FireIndex(f, k, o) == LET c == {j \in 1..Len(Table[f]) : Reads(k, Table[f][j].tok) /\ OracleOk(Table[f][j].la, o)} IN
+                      IF c = {} THEN 0 ELSE CHOOSE j \in c : \A m \in c : j <= m
+
+(***************************************************************************)
 (* The grammar read as a plain nondeterministic position automaton: no     *)
 (* ordering, no productions, no hints, no ignored-token loops.  It gives   *)
 (* an independent definition of "sentence" and "viable prefix" against     *)
